@@ -122,7 +122,8 @@ func InvCDF(dist DistCommon) func(y float64) (x float64) {
 		const almostInf = 1e100
 		const xtol = 1e-16
 
-		if y < 0 || y > 1 {
+		if !(0 <= y && y <= 1) {
+			// Outside [0, 1], including NaN.
 			return nan
 		} else if y == 0 {
 			l, _ := dist.Bounds()
